@@ -9,7 +9,7 @@ git -C /repo worktree add -q --detach $WT HEAD || exit 2
 cd $WT
 cmake -G Ninja -S . -B _build -DCMAKE_BUILD_TYPE=RelWithDebInfo -DBUILD_TESTING=ON -DCMAKE_POLICY_VERSION_MINIMUM=3.5 -DFETCHCONTENT_TRY_FIND_PACKAGE_MODE=ALWAYS -DFETCHCONTENT_UPDATES_DISCONNECTED=ON -DFETCHCONTENT_SOURCE_DIR_GOOGLETEST=/usr/src/googletest -DCMAKE_CXX_FLAGS=-Wno-error > /dev/null 2>&1
 for s in "$@"; do
-  p=${s%/*}; i=${s#*/}; src=/tmp/wt/$p/out/$i
+  p=${s%/*}; i=${s#*/}; src=${SEEDBASE:-/tmp/wt}/$p/out/$i
   [ -f $src/patch.diff ] || { echo "$s MISSING" >> $LOG; continue; }
   git checkout -q -- . ; 
   d0=1; d1=0; ut="?"
